@@ -291,6 +291,29 @@ theorem bidxR_append : ∀ {ea : RShape} {e : RIdx} (ba : RShape) (idx : RIdx), 
     simp only [List.cons_append, bidxR]
     rw [bidxR_append ba idx (by simpa using h)]
 
+theorem bcastR_of_into : ∀ {s r : RShape}, Into s r → bcastR s r = some r
+  | [], r, _ => by simp [bcastR]
+  | a :: as, [], h => by simp [Into] at h
+  | a :: as, b :: bs, h => by
+    have hd : bdim a b = some b := by
+      rcases h.1 with h' | h'
+      · subst h'; exact bdim_self a
+      · subst h'; exact bdim_one_left b
+    simp [bcastR, hd, bcastR_of_into h.2]
+
+/-- shapes of the inputs of a batched exact GP: data with batch shape `db`, parameters with batch shape `pb`, targets with
+the broadcast batch shape `bs` (innermost-first: `x : (*db, n, d)` is `[d, n] ++ db`) -/
+structure GPShapes (I : GPInputs α) (d n m : Nat) (eℓ pb db bs : RShape) : Prop where
+  x : I.x.shape = [d, n] ++ db
+  xs : I.xs.shape = [d, m] ++ db
+  y : I.y.shape = [n] ++ bs
+  ℓ : I.ℓ.shape = eℓ ++ pb
+  hℓ : eℓ = [d, 1] ∨ eℓ = [1, 1]
+  os : I.os.shape = pb
+  c : I.c.shape = pb
+  σ : I.σ.shape = [1] ++ pb
+  bc : bcastR pb db = some bs
+
 /-! ### entry-level descriptions of the generated choreographies (their `Holds` proofs are theorems of `Props/C08Compose`) -/
 
 section Specs
